@@ -326,6 +326,10 @@ func (c *fctx) applyContract(fr *frame, key string, ct *spec.FuncContract, fn *s
 		e.vars[n] = sval{t: c.termOf(args[i], "argument "+n), sort: srt, gt: gt}
 	}
 	short := shortFn(key)
+	for _, gv := range ct.Given {
+		c.assume(implies(reach, e.tr(gv.E).t))
+		c.used["definition:"+shortFn(key)+": "+gv.Src] = true
+	}
 	for i, r := range ct.Requires {
 		g := e.tr(r.E)
 		lbl := fmt.Sprint(i)
@@ -372,6 +376,11 @@ func (c *fctx) applyContract(fr *frame, key string, ct *spec.FuncContract, fn *s
 					c.assume(implies(reach, fmt.Sprintf("(not (= %s nilI))", v)))
 				}
 				cargs = append(cargs, val{t: v})
+				e.vars[fmt.Sprintf("cbarg%d", len(cargs)-1)] = sval{t: v, sort: c.S.SortOf(prm.Type()), gt: prm.Type()}
+			}
+			e.st = st
+			for _, gv := range ct.CbGiven {
+				c.assume(implies(reach, e.tr(gv.E).t))
 			}
 			c.inline(fr, av.clo.fn, cargs, av.clo.bindings, st, reach, pos, av.clo.fn.Signature.Results(), c.P.ContractFor(av.clo.fn))
 		}
